@@ -114,3 +114,490 @@ Fixpoint dce_stmts (ss : list stmt) (s : set) : list stmt * set :=
 (* optimize_function *)
 Definition dce (f : func) : func :=
   mkfunc (f_params f) (fst (dce_stmts (f_body f) (use_expr (f_ret f) []))) (f_ret f).
+
+(* ======================================================================== conditional constant propagation *)
+
+(* Expression::cmp : Int32Literal < Int31Literal < StringName < Variable, then by payload *)
+Definition expr_cmp (a b : expr) : comparison :=
+  match a, b with
+  | EInt i, EInt j => Z.compare (wrap32 i) (wrap32 j)
+  | EInt _, _ => Lt
+  | EI31 _, EInt _ => Gt
+  | EI31 i, EI31 j => Z.compare i j
+  | EI31 _, _ => Lt
+  | EStr _, (EInt _ | EI31 _) => Gt
+  | EStr s, EStr t => N.compare s t
+  | EStr _, EVar _ => Lt
+  | EVar x, EVar y => N.compare x y
+  | EVar _, _ => Gt
+  end.
+Definition expr_eq (a b : expr) : bool := match expr_cmp a b with Eq => true | _ => false end.
+Definition expr_lt (a b : expr) : bool := match expr_cmp a b with Lt => true | _ => false end.
+Definition expr_gt (a b : expr) : bool := match expr_cmp a b with Gt => true | _ => false end.
+
+(* Statement::binary_unwrapped *)
+Definition unwrapped (op : binop) (e1 e2 : expr) : binop * expr * expr :=
+  match op, e2 with
+  | MINUS, EInt n => if wrap32 n =? MIN then (op, e1, e2) else (PLUS, e1, EInt (- wrap32 n))
+  | _, _ => (op, e1, e2)
+  end.
+(* Statement::flexible_order_binary *)
+Definition flex_order (op : binop) (e1 e2 : expr) : binop * expr * expr :=
+  let '(op, a, b) := unwrapped op e1 e2 in
+  match op with
+  | DIV | MOD | MINUS | SHL | SHR => (op, a, b)
+  | MUL | PLUS | LAND | LOR | XOR | EQ | NE => if expr_gt a b then (op, a, b) else (op, b, a)
+  | LT => if expr_lt a b then (GT, b, a) else (op, a, b)
+  | LE => if expr_lt a b then (GE, b, a) else (op, a, b)
+  | GT => if expr_lt a b then (LT, b, a) else (op, a, b)
+  | GE => if expr_lt a b then (LE, b, a) else (op, a, b)
+  end.
+(* Statement::binary_flexible_unwrapped *)
+Definition flex_unwrapped (op : binop) (e1 e2 : expr) : binop * expr * expr :=
+  let '(op, a, b) := flex_order op e1 e2 in unwrapped op a b.
+
+(* LocalValueContextForOptimization / BinaryExpressionContext.  The Rust contexts are stacks of scopes;
+   every insertion goes to the innermost scope and pop_scope drops it, so "push; work; pop" is modelled by
+   continuing with the context value from before the push.  index_access_cx is only ever filled by
+   StructInit, which is outside the fragment: it stays empty and is omitted. *)
+Definition vcx := list (name * expr).
+Definition bexp := (binop * name * Z)%type.               (* BinaryExpression { operator, e1, e2 } *)
+Definition bcx := list (name * bexp).
+Record cx := mkcx { cx_v : vcx; cx_b : bcx }.
+Definition cx0 : cx := mkcx [] [].
+
+Fixpoint assoc {A} (x : name) (l : list (name * A)) : option A :=
+  match l with [] => None | (y, v) :: r => if N.eqb x y then Some v else assoc x r end.
+
+(* optimize_expr / optimize_variable_name *)
+Definition opt_expr (c : vcx) (e : expr) : expr :=
+  match e with EVar x => match assoc x c with Some b => b | None => e end | _ => e end.
+(* checked_bind: None models the panic on a name that is already bound *)
+Definition bind (x : name) (e : expr) (c : cx) : option cx :=
+  match assoc x (cx_v c) with Some _ => None | None => Some (mkcx ((x, e) :: cx_v c) (cx_b c)) end.
+Definition bind_b (x : name) (b : bexp) (c : cx) : cx := mkcx (cx_v c) ((x, b) :: cx_b c).
+
+(* flags carried next to the result: (off the proved path, a Break was re-emitted outside its loop) *)
+Definition fl := (bool * bool)%type.
+Definition fl0 : fl := (false, false).
+Definition orf (a b : fl) : fl := (fst a || fst b, snd a || snd b).
+Definition fl_unproved : fl := (true, false).
+
+(* which code is modelled: the pass as it is now (both true), or before one of the two repairs made after
+   findings of this check:  v_guard  = fix 6cdc437 (the first iteration replaces the loop only if the rest of
+   the body has no break of this loop);  v_optinit = fix fef18b5 (an unchanging loop variable is bound to the
+   OPTIMISED initial value) *)
+Record ver := mkver { v_guard : bool; v_optinit : bool }.
+Definition ver_now : ver := mkver true true.
+
+(* emitted statements, context, ends_with_break, flags *)
+Definition R := (list stmt * cx * bool * fl)%type.
+
+Section Go.
+  Variable one : stmt -> cx -> option R.
+  (* optimize_stmts *)
+  Fixpoint ccp_go (ss : list stmt) (c : cx) : option R :=
+    match ss with
+    | [] => Some ([], c, false, fl0)
+    | st :: r =>
+        match one st c with
+        | None => None
+        | Some (out, c1, true, f1) => Some (out, c1, true, f1)
+        | Some (out, c1, false, f1) =>
+            match ccp_go r c1 with
+            | None => None
+            | Some (out2, c2, b, f2) => Some (out ++ out2, c2, b, orf f1 f2)
+            end
+        end
+    end.
+End Go.
+
+Definition is_break (s : stmt) : bool := match s with SBreak _ => true | _ => false end.
+Fixpoint split_last {A} (l : list A) : option (list A * A) :=
+  match l with
+  | [] => None
+  | [x] => Some ([], x)
+  | x :: r => match split_last r with Some (i, z) => Some (x :: i, z) | None => None end
+  end.
+
+Fixpoint bind_inits (ts : list triple) (c : cx) : option cx :=
+  match ts with
+  | [] => Some c
+  | t :: r => match bind (t_name t) (t_e1 t) c with Some c' => bind_inits r c' | None => None end
+  end.
+
+(* try_optimize_loop_for_some_iterations; `depth` = max_depth.  `g = true` is the code as it is now (after
+   fix 6cdc437: the first iteration replaces the loop only if the rest of the body has no break of this loop,
+   `contains_break_of_this_loop` = negb no_break_l); `g = false` is the code before that repair.  The returned flag is "proved path" only
+   for the exit that returns the loop unchanged at the first attempt. *)
+Fixpoint try_loop (g : ver) (stmts : list stmt -> cx -> option R) (depth : nat) (first : bool)
+         (lvs : list triple) (body : list stmt) (bc : option name) (c : cx) : option R :=
+  match bind_inits lvs c with
+  | None => None
+  | Some c1 =>
+      match stmts body c1 with
+      | None => None
+      | Some (out, c2, _, _) =>
+          match split_last out with
+          | Some (rest, last) =>
+              if negb (is_break last) || (v_guard g && negb (no_break_l rest))
+              then Some ([SWhile lvs body bc], c, false, if first then fl0 else fl_unproved)
+              else
+                match last with
+                | SBreak v =>
+                    let r := (rest, c, false, (true, negb (no_break_l rest))) in
+                    match bc with
+                    | Some b => match bind b (opt_expr (cx_v c) v) c with
+                                | Some c' => Some (rest, c', false, (true, negb (no_break_l rest)))
+                                | None => None
+                                end
+                    | None => Some r
+                    end
+                | _ => None
+                end
+          | None =>
+              let adv := map (fun t => (t_name t, opt_expr (cx_v c2) (t_e2 t), t_e2 t)) lvs in
+              match depth with
+              | O => Some ([SWhile adv body bc], c, false, fl_unproved)
+              | S d => try_loop g stmts d false adv body bc c
+              end
+          end
+      end
+  end.
+
+(* the first loop of the While case: loop variables whose initial and loop value are the same expression *)
+Fixpoint elim_lvs (g : ver) (lvs : list triple) (c : cx) : option (list triple * cx * fl) :=
+  match lvs with
+  | [] => Some ([], c, fl0)
+  | t :: r =>
+      if expr_eq (t_e1 t) (t_e2 t)
+      then match bind (t_name t) (if v_optinit g then opt_expr (cx_v c) (t_e1 t) else t_e1 t) c with
+           | Some c' => match elim_lvs g r c' with
+                        | Some (k, c'', f) => Some (k, c'', orf (if v_optinit g then fl0 else fl_unproved) f)
+                        | None => None
+                        end
+           | None => None
+           end
+      else match elim_lvs g r c with
+           | Some (k, c', f) => Some (t :: k, c', f)
+           | None => None
+           end
+  end.
+
+Fixpoint bind_fas (is_true : bool) (fas : list triple) (c : cx) : option cx :=
+  match fas with
+  | [] => Some c
+  | t :: r =>
+      match bind (t_name t) (opt_expr (cx_v c) (if is_true then t_e1 t else t_e2 t)) c with
+      | Some c' => bind_fas is_true r c'
+      | None => None
+      end
+  end.
+
+(* the loop over (branch1_values, branch2_values, final_assignments) *)
+Fixpoint merge_fas (fas : list triple) (v1 v2 : list expr) (c : cx) : option (list triple * cx) :=
+  match fas, v1, v2 with
+  | t :: r, a :: r1, b :: r2 =>
+      if expr_eq a b
+      then match bind (t_name t) a c with Some c' => merge_fas r r1 r2 c' | None => None end
+      else match merge_fas r r1 r2 c with Some (k, c') => Some ((t_name t, a, b) :: k, c') | None => None end
+  | _, _, _ => Some ([], c)
+  end.
+
+Definition lit (e : expr) : option Z := match e with EInt z => Some (wrap32 z) | _ => None end.
+Definition is_lit (e : expr) (k : Z) : bool := match lit e with Some z => z =? k | None => false end.
+
+(* the Binary case of optimize_stmt, in three pieces: "bind the name and drop the statement", the part
+   after the literal special cases (same-variable identities, operand reordering, merging with a recorded
+   binary expression), and the literal special cases themselves *)
+Definition ccp_bound (x : name) (e : expr) (c : cx) : option R :=
+  match bind x e c with Some c' => Some ([], c', false, fl0) | None => None end.
+
+Definition ccp_bin_rest (x : name) (op : binop) (e1 e2 : expr) (c : cx) : option R :=
+  match
+    match e1, e2 with
+    | EVar a, EVar b =>
+        if N.eqb a b then
+          match op with
+          | MINUS | MOD => Some (EInt 0)
+          | DIV => Some (EInt 1)
+          | _ => None
+          end
+        else None
+    | _, _ => None
+    end
+  with
+  | Some e => ccp_bound x e c
+  | None =>
+      let '(op', a, b) := flex_unwrapped op e1 e2 in
+      match a, b with
+      | EVar v1, EInt c2 =>
+          let c2 := wrap32 c2 in
+          match
+            match assoc v1 (cx_b c) with
+            | Some (iop, iv, ic) => match merge_binop op' iop ic c2 with
+                                    | Some (mop, mc) => Some (SBin x mop (EVar iv) (EInt mc))
+                                    | None => None
+                                    end
+            | None => None
+            end
+          with
+          | Some s => Some ([s], c, false, fl0)
+          | None => Some ([SBin x op' a b], bind_b x (op', v1, c2) c, false, fl0)
+          end
+      | _, _ => Some ([SBin x op' a b], c, false, fl0)
+      end
+  end.
+
+Definition ccp_bin (x : name) (op : binop) (e1 e2 : expr) (c : cx) : option R :=
+  let e1 := opt_expr (cx_v c) e1 in
+  let e2 := opt_expr (cx_v c) e2 in
+  match lit e2 with
+  | Some v2 =>
+      if (v2 =? 0) && (match op with PLUS => true | _ => false end) then ccp_bound x e1 c
+      else if (v2 =? 0) && (match op with MUL => true | _ => false end) then ccp_bound x (EInt 0) c
+      else if (v2 =? 1) && (match op with MOD => true | _ => false end) then ccp_bound x (EInt 0) c
+      else if (v2 =? 1) && (match op with MUL | DIV => true | _ => false end) then ccp_bound x e1 c
+      else match lit e1 with
+           | Some v1 => match fold_binop op v1 v2 with
+                        | Some r => ccp_bound x (EInt (wrap32 r)) c
+                        | None => ccp_bin_rest x op e1 e2 c
+                        end
+           | None => ccp_bin_rest x op e1 e2 c
+           end
+  | None => ccp_bin_rest x op e1 e2 c
+  end.
+
+(* optimize_stmt; `n` bounds the nesting of recursive calls (the Rust recursion re-optimizes its own
+   output in the While case, which is not structural); None = out of this bound or a Rust panic *)
+Fixpoint ccp_stmt (g : ver) (n : nat) (st : stmt) (c : cx) {struct n} : option R :=
+  match n with
+  | O => None
+  | S n' =>
+    let stmts := ccp_go (ccp_stmt g n') in
+    match st with
+    | SNot x e =>
+        let e := opt_expr (cx_v c) e in
+        match lit e with
+        | Some v => match bind x (EInt (wrap32 (Z.lxor v 1))) c with
+                    | Some c' => Some ([], c', false, fl0)
+                    | None => None
+                    end
+        | None => Some ([SNot x e], c, false, fl0)
+        end
+    | SPrim x p e => Some ([SPrim x p (opt_expr (cx_v c) e)], c, false, fl0)
+    | SBin x op e1 e2 => ccp_bin x op e1 e2 c
+    | SCall f args ret => Some ([SCall f (map (opt_expr (cx_v c)) args) ret], c, false, fl0)
+    | SIf cond s1 s2 fas =>
+        let cond := opt_expr (cx_v c) cond in
+        match lit cond with
+        | Some v =>
+            let is_true := negb (v =? 0) in
+            match stmts (if is_true then s1 else s2) c with
+            | None => None
+            | Some (out, c1, true, f) => Some (out, c1, true, f)
+            | Some (out, c1, false, f) =>
+                match bind_fas is_true fas c1 with
+                | Some c2 => Some (out, c2, false, f)
+                | None => None
+                end
+            end
+        | None =>
+            match
+              match s1, s2, fas with
+              | [], [], [t] =>
+                  if is_lit (t_e1 t) 1 && is_lit (t_e2 t) 0
+                  then Some (match bind (t_name t) cond c with
+                             | Some c' => Some ([], c', false, fl0)
+                             | None => None
+                             end)
+                  else if is_lit (t_e1 t) 0 && is_lit (t_e2 t) 1
+                  then Some (Some ([SBin (t_name t) XOR cond (EInt 1)], c, false, fl0))
+                  else None
+              | _, _, _ => None
+              end
+            with
+            | Some r => r
+            | None =>
+                match stmts s1 c with
+                | None => None
+                | Some (o1, c1, _, f1) =>
+                    let v1 := map (fun t => opt_expr (cx_v c1) (t_e1 t)) fas in
+                    match stmts s2 c with
+                    | None => None
+                    | Some (o2, c2, _, f2) =>
+                        let v2 := map (fun t => opt_expr (cx_v c2) (t_e2 t)) fas in
+                        match merge_fas fas v1 v2 c with
+                        | None => None
+                        | Some (fas', c') =>
+                            Some (if is_nil o1 && is_nil o2 && is_nil fas' then [] else [SIf cond o1 o2 fas'],
+                                  c', false, orf f1 f2)
+                        end
+                    end
+                end
+            end
+        end
+    | SSIf cond inv ss =>
+        let cond := opt_expr (cx_v c) cond in
+        match lit cond with
+        | Some v =>
+            if negb (Z.lxor v (b2z inv) =? 0) then stmts ss c else Some ([], c, false, fl0)
+        | None =>
+            match stmts ss c with
+            | None => None
+            | Some (out, c1, _, f) => Some (if is_nil out then [] else [SSIf cond inv out], c1, false, f)
+            end
+        end
+    | SBreak e => Some ([SBreak (opt_expr (cx_v c) e)], c, true, fl0)
+    | SWhile lvs ss bc =>
+        match elim_lvs g lvs c with
+        | None => None
+        | Some (filtered, c1, f0) =>
+            let inits := map (fun t => opt_expr (cx_v c1) (t_e1 t)) filtered in
+            match stmts ss c1 with
+            | None => None
+            | Some (body, c_in, _, f1) =>
+                let lvs' := map (fun t => (t_name t, opt_expr (cx_v c1) (t_e1 t), opt_expr (cx_v c_in) (t_e2 t))) filtered in
+                match
+                  match split_last body with
+                  | Some (rest, SBreak e) => if v_guard g && negb (no_break_l rest) then None else Some (rest, e)
+                  | _ => None
+                  end
+                with
+                | Some (rest, e) =>
+                    (* "Now we know that the loop will only loop once!" *)
+                    match bind_inits lvs' c1 with
+                    | None => None
+                    | Some c2 =>
+                        match stmts rest c2 with
+                        | None => None
+                        | Some (out, c3, _, f2) =>
+                            let f := orf (orf f0 (orf f1 f2)) (true, negb (no_break_l out)) in
+                            match bc with
+                            | Some b => match bind b (opt_expr (cx_v c3) e) c3 with
+                                        | Some c4 => Some (out, c4, false, f)
+                                        | None => None
+                                        end
+                            | None => Some (out, c3, false, f)
+                            end
+                        end
+                    end
+                | None =>
+                    match try_loop g stmts 5 true lvs' body bc c1 with
+                    | None => None
+                    | Some (out, c2, b, f2) => Some (out, c2, b, orf (orf f0 f1) f2)
+                    end
+                end
+            end
+        end
+    end
+  end.
+Definition ccp_stmts (g : ver) (n : nat) : list stmt -> cx -> option R := ccp_go (ccp_stmt g n).
+
+(* optimize_function *)
+Definition ccp_fuel : nat := 64.
+Definition ccp_gen (g : ver) (f : func) : option (func * fl) :=
+  match ccp_stmts g ccp_fuel (f_body f) cx0 with
+  | None => None
+  | Some (out, c, _, f1) => Some (mkfunc (f_params f) out (opt_expr (cx_v c) (f_ret f)), f1)
+  end.
+Definition ccp : func -> option (func * fl) := ccp_gen ver_now.
+Definition ccp_old : func -> option (func * fl) := ccp_gen (mkver false false).      (* before fix 6cdc437 *)
+Definition ccp_old2 : func -> option (func * fl) := ccp_gen (mkver true false).      (* after 6cdc437, before fef18b5 *)
+
+(* ======================================================================== local value numbering *)
+
+(* BindedValue (optimization_common.rs); Cast is not value-numbered *)
+Inductive bval :=
+| BVBin (op : binop) (e1 e2 : expr)
+| BVNot (e : expr)
+| BVPrim (p : prim) (e : expr).
+
+Definition binop_eq (a b : binop) : bool :=
+  match a, b with
+  | MUL, MUL | DIV, DIV | MOD, MOD | PLUS, PLUS | MINUS, MINUS | LAND, LAND | LOR, LOR | SHL, SHL | SHR, SHR
+  | XOR, XOR | LT, LT | LE, LE | GT, GT | GE, GE | EQ, EQ | NE, NE => true
+  | _, _ => false
+  end.
+Definition prim_eq (a b : prim) : bool :=
+  match a, b with
+  | PIdx t i, PIdx t' i' => N.eqb t t' && N.eqb i i'
+  | PIsPtr t, PIsPtr t' => N.eqb t t'
+  | _, _ => false
+  end.
+(* derived Eq of BindedValue; expressions are compared with Expression::eq (= cmp is Equal) *)
+Definition bval_eq (a b : bval) : bool :=
+  match a, b with
+  | BVBin op e1 e2, BVBin op' e1' e2' => binop_eq op op' && expr_eq e1 e1' && expr_eq e2 e2'
+  | BVNot e, BVNot e' => expr_eq e e'
+  | BVPrim p e, BVPrim p' e' => prim_eq p p' && expr_eq e e'
+  | _, _ => false
+  end.
+
+Definition lvc := list (name * name).           (* LocalContext: variable -> representative *)
+Definition lbc := list (bval * name).           (* LocalBindedValueContext *)
+
+Fixpoint bassoc (v : bval) (l : lbc) : option name :=
+  match l with [] => None | (u, n) :: r => if bval_eq v u then Some n else bassoc v r end.
+
+(* optimize_variable / optimize_expr *)
+Definition lvn_var (vc : lvc) (x : name) : name := match assoc x vc with Some y => y | None => x end.
+Definition lvn_expr (vc : lvc) (e : expr) : expr := match e with EVar x => EVar (lvn_var vc x) | _ => e end.
+(* lvn_bind_var *)
+Definition lvn_bind_var (vc : lvc) (x v : name) : lvc := (x, match assoc x vc with Some y => y | None => v end) :: vc.
+
+(* the four value-numbered statement forms share this step *)
+Definition lvn_number (x : name) (v : bval) (keep : stmt) (vc : lvc) (bc : lbc) : option stmt * lvc * lbc :=
+  match bassoc v bc with
+  | Some b => (None, lvn_bind_var vc x b, bc)
+  | None => (Some keep, vc, (v, x) :: bc)
+  end.
+
+(* optimize_stmt: the statement is rewritten in place; None = dropped (retain_mut returned false) *)
+Fixpoint lvn_stmt (st : stmt) (vc : lvc) (bc : lbc) {struct st} : option stmt * lvc * lbc :=
+  let fix go (ss : list stmt) (vc : lvc) (bc : lbc) : list stmt * lvc * lbc :=
+    match ss with
+    | [] => ([], vc, bc)
+    | st :: r =>
+        let '(o, vc1, bc1) := lvn_stmt st vc bc in
+        let '(r', vc2, bc2) := go r vc1 bc1 in
+        (match o with Some st' => st' :: r' | None => r' end, vc2, bc2)
+    end in
+  match st with
+  | SBin x op e1 e2 =>
+      let e1 := lvn_expr vc e1 in let e2 := lvn_expr vc e2 in
+      lvn_number x (BVBin op e1 e2) (SBin x op e1 e2) vc bc
+  | SNot x e => let e := lvn_expr vc e in lvn_number x (BVNot e) (SNot x e) vc bc
+  | SPrim x p e =>
+      let e := lvn_expr vc e in
+      match p with
+      | PCast _ => (Some (SPrim x p e), vc, bc)
+      | _ => lvn_number x (BVPrim p e) (SPrim x p e) vc bc
+      end
+  | SCall f args ret => (Some (SCall f (map (lvn_expr vc) args) ret), vc, bc)
+  | SIf c s1 s2 fas =>
+      let c := lvn_expr vc c in
+      let '(s1', vc1, _) := go s1 vc bc in
+      let '(s2', vc2, _) := go s2 vc bc in
+      (Some (SIf c s1' s2' (map (fun t => (t_name t, lvn_expr vc1 (t_e1 t), lvn_expr vc2 (t_e2 t))) fas)), vc, bc)
+  | SSIf c inv ss =>
+      let c := lvn_expr vc c in
+      let '(ss', _, _) := go ss vc bc in
+      (Some (SSIf c inv ss'), vc, bc)
+  | SBreak e => (Some (SBreak (lvn_expr vc e)), vc, bc)
+  | SWhile lvs ss bcol =>
+      let '(ss', vc1, _) := go ss vc bc in
+      (Some (SWhile (map (fun t => (t_name t, lvn_expr vc (t_e1 t), lvn_expr vc1 (t_e2 t))) lvs) ss' bcol), vc, bc)
+  end.
+Fixpoint lvn_stmts (ss : list stmt) (vc : lvc) (bc : lbc) : list stmt * lvc * lbc :=
+  match ss with
+  | [] => ([], vc, bc)
+  | st :: r =>
+      let '(o, vc1, bc1) := lvn_stmt st vc bc in
+      let '(r', vc2, bc2) := lvn_stmts r vc1 bc1 in
+      (match o with Some st' => st' :: r' | None => r' end, vc2, bc2)
+  end.
+(* optimize_function *)
+Definition lvn (f : func) : func :=
+  let '(body, vc, _) := lvn_stmts (f_body f) [] [] in
+  mkfunc (f_params f) body (lvn_expr vc (f_ret f)).
